@@ -34,7 +34,9 @@ def run_family(ctx, name: str, cases: list) -> dict:
         ds = res["diags"].get((idx, line), [])
         fields = sorted(min(ds, key=len)) if ds else ["unexplained"]
         row = t["rows"][line - 1] if line - 1 < len(t["rows"]) else {}
-        findings.append({"fields": fields, "cause": row.get("c"), "cfg": t["cfg"], "schedule": cases[idx][1], "line": line, "rows": t["rows"][max(0, line - 8) : line]})
+        findings.append({"fields": fields, "cause": row.get("c"), "cfg": t["cfg"], "schedule": cases[idx][1], "line": line, "rows": t["rows"][max(0, line - 8) : line],
+                         # raw (non-library) exceptions that escaped from an awaited call anywhere in this execution
+                         "raw_outcomes": sorted({str(d[1]) for r in t["rows"] for d in r["dn"] if str(d[1]).startswith("RAW:")})})
     for idx, invname in res["invariant"]:
         t = traces[idx]
         findings.append({"fields": ["invariant:" + invname], "cause": "invariant", "cfg": t["cfg"], "schedule": cases[idx][1], "line": 0, "rows": t["rows"][-8:]})
